@@ -249,6 +249,20 @@ func (b *built) dataUnchanged(op string) {
 	}
 }
 
+// presetTime: the command's own time is set before the command is attached to the signal (setters come in any
+// order); 0 is a value like any other - the whole time then travels in pts_adjustment.
+func (b *built) presetTime(cmd scte35.SpliceCommand) (bool, uint64) {
+	if !b.r.Bool() {
+		return false, 0
+	}
+	v := b.r.PickU64([]uint64{0, 0, 0, 1, m33, b.val(33) & m33})
+	b.log("(on the new command, before it is attached) SetHasPTS(true); SetPTS(%d)", v)
+	cmd.SetHasPTS(true)
+	cmd.SetPTS(gots.PTS(v))
+	b.c.Count("created.command_time_set_before_attaching")
+	return true, v
+}
+
 func (b *built) setCommand(kind int) {
 	r := b.r
 	b.ts, b.ins = nil, nil
@@ -259,15 +273,23 @@ func (b *built) setCommand(kind int) {
 		b.m.Cmd = 0
 	case 1:
 		b.ts = scte35.CreateTimeSignalCommand()
+		pre, pv := b.presetTime(b.ts)
 		b.log("SetCommandInfo(CreateTimeSignalCommand())")
 		b.x.SetCommandInfo(b.ts)
+		if pre && (!b.ts.HasPTS() || uint64(b.ts.PTS()) != pv) {
+			b.fail("getter:command-time-changed-by-attaching", fmt.Sprintf("a time_signal given pts_time %d before it was attached reports %d (time_specified_flag %v) after SetCommandInfo", pv, b.ts.PTS(), b.ts.HasPTS()), nil, nil)
+		}
 		// the field values of a freshly created command are whatever its getters report (defaults are the
 		// library's choice, not the statement's)
 		b.m.Cmd, b.m.TSHas, b.m.TSPTS = 6, b.ts.HasPTS(), uint64(b.ts.PTS())&m33
 	default:
 		b.ins = scte35.CreateSpliceInsertCommand()
+		pre, pv := b.presetTime(b.ins)
 		b.log("SetCommandInfo(CreateSpliceInsertCommand())")
 		b.x.SetCommandInfo(b.ins)
+		if pre && (!b.ins.HasPTS() || uint64(b.ins.PTS()) != pv) {
+			b.fail("getter:command-time-changed-by-attaching", fmt.Sprintf("a splice_insert given pts_time %d before it was attached reports %d (time_specified_flag %v) after SetCommandInfo", pv, b.ins.PTS(), b.ins.HasPTS()), nil, nil)
+		}
 		m := &b.m
 		m.Cmd = 5
 		in := b.ins
@@ -733,13 +755,23 @@ func (b *built) descOp() {
 		if !f && m.Type != 0x34 && m.Type != 0x36 && r.Chance(3) {
 			// the flag first, the type that carries the fields second (setters come in any order; no encoding
 			// lies between the two calls, so "the next encoding" is one of a placement-opportunity start)
-			v := r.PickByte([]byte{0x34, 0x36})
+			v := r.PickByte([]byte{0x34, 0x36, 0x34, 0x36, 0x34, 0x36, 0x38, 0x3A, 0x30, 0x32, 0x3C, 0x35})
 			b.log(p+"SetHasSubSegments(true); SetTypeID(%#x)", v)
 			d.SetHasSubSegments(true)
 			if !d.HasSubSegments() {
 				bad("has-sub-segments")
 			}
 			d.SetTypeID(scte35.SegDescType(v))
+			if v != 0x34 && v != 0x36 {
+				// ... and when the type that follows is one without sub-segment fields its encoding has
+				// none (what the flag getter says meanwhile is the library's choice, as after SetTypeID above)
+				m.Type, m.HasSub = v, false
+				if byte(d.TypeID()) != v {
+					bad("type-id")
+				}
+				b.kinds["sub-segments-flag-then-a-type-without-them"] = true
+				break
+			}
 			m.Type, m.HasSub = v, true
 			if byte(d.TypeID()) != v || !d.HasSubSegments() {
 				bad("has-sub-segments-set-before-type")
@@ -862,7 +894,7 @@ func (b *built) descOp() {
 	b.kinds["descriptor"] = true
 }
 
-var segTypes = []byte{0x00, 0x01, 0x10, 0x11, 0x13, 0x14, 0x20, 0x22, 0x30, 0x31, 0x34, 0x34, 0x35, 0x36, 0x36, 0x37, 0x40, 0x44, 0x50, 0x51, 0xAA}
+var segTypes = []byte{0x00, 0x01, 0x10, 0x11, 0x13, 0x14, 0x20, 0x22, 0x30, 0x31, 0x34, 0x34, 0x35, 0x36, 0x36, 0x37, 0x38, 0x39, 0x3A, 0x3B, 0x3C, 0x3D, 0x32, 0x33, 0x24, 0x26, 0x40, 0x42, 0x44, 0x50, 0x51, 0xAA}
 
 // decodable: the logical values lie in the syntax the decoder supports.
 func decodable(m *ref.Sig) bool {
